@@ -234,7 +234,7 @@ def run(chk: core.Check):
     spaced = [t for o in outs for t in o.get("t3", [])]
     # ---- T3 ----
     docs = []
-    pool = ["k1", "k2", "K1"]
+    pool = ["k1", "k2", "K1", "ß", "ss", "SS"]      # equal only under case folding: different keys
     for i in range(nrand):
         d = docgen.Doc()
         for j in range(rnd.randint(1, 8)):
